@@ -258,22 +258,10 @@ class BeltStore(Store):
             # 4) Drop the event token
             self.reserved_events.pop(ev_idx)
 
-            # 5) Remove it from ready_items wherever it currently is
-            try:
-                self.ready_items.remove(item)
-            except ValueError:
+            # 5) The item stays where it is in ready_items: it is simply unbound, so it is
+            #    again the first candidate among the items it preceded.
+            if not any(item is i for i in self.ready_items):
                 raise RuntimeError(f"Item {item!r} not found in ready_items during cancel.")
-
-            # 6) Compute new insertion index
-            if self.mode == "FIFO":
-                # one slot before the remaining reserved block
-                insert_idx = len(self.ready_items) - len(self.reserved_events) - 1
-            else:  # LIFO
-                # top of stack
-                insert_idx = len(self.ready_items)
-
-            # 7) Re‑insert it
-            self.ready_items.insert(insert_idx, item)
 
             # 8) Trigger any other pending reservations
             self._trigger_reserve_get(None)
@@ -378,11 +366,10 @@ class BeltStore(Store):
             We pick the j-th from top (for LIFO) or bottom (for FIFO)
             but do NOT remove it yet—we just record the exact item.
             """
-            j = len(self.reserved_events)
-            if self.mode == "FIFO":
-                item = self.ready_items[j]
-            else:  # LIFO
-                item = self.ready_items[-1 - j]
+            # bind the first ready item (from the bottom for FIFO, from the top for LIFO)
+            # that is not already bound to another granted reservation
+            candidates = self.ready_items if self.mode == "FIFO" else reversed(self.ready_items)
+            item = next(i for i in candidates if not any(i is r for r in self.reserved_items))
 
             # record the reservation
             self.reserved_events.append(event)
